@@ -439,12 +439,12 @@ def roundtrip_checks(tier):
                 if not re.fullmatch(r'days since \d{4}-\d{2}-\d{2} \d{2}:\d{2}:\d{2} [+-]\d{1,2}(:?\d{2})?', tu):
                     V(case, "time units have the form '<unit> since YYYY-MM-DD HH:MM:SS <signed offset>'", tu)
                 back = emsarray.open_dataset(out)
-                ref = emsarray.open_dataset(src)
+                ref = sh        # what was stored: instants, durations, numbers
                 for name in ('t', 'age', 'eta'):
                     a, b = ref[name].values, back[name].values
                     if a.dtype != b.dtype or not numpy.array_equal(a, b):
                         V(case, 'identical variable values / time instants after the round trip', f'{name}: {a} ({a.dtype}) != {b} ({b.dtype})')
-                back.close(); ref.close(); opened.close()
+                back.close(); opened.close()
                 notes.append(case)
             except Exception as e:
                 V(case, 'saving through the convention succeeds', f'{type(e).__name__}: {e}')
